@@ -658,9 +658,12 @@ func (sa *Safe) stdlib(fr *frame, st *State, x *ssa.Call, callee *ssa.Function, 
 	case "fmt.Errorf", "errors.New":
 		return one(sa.nonNilErr())
 	case "encoding/hex.EncodeToString":
+		// allocates two characters per octet of its argument
 		if args[0].Len != nil {
+			sa.addAlloc(AllocSite{Fn: SSAFuncName(fr.fn), Pos: x.Pos(), What: "hex.EncodeToString(" + exprText(x.Call.Args[0]) + ")", Size: sa.u.linString(args[0].Len.scale(2)), Max: satMul(st.linItv(args[0].Len).Hi, 2)})
 			return one(AVal{Kind: avStr, Len: args[0].Len.scale(2), Type: types.Typ[types.String]})
 		}
+		sa.addAlloc(AllocSite{Fn: SSAFuncName(fr.fn), Pos: x.Pos(), What: "hex.EncodeToString(" + exprText(x.Call.Args[0]) + ")", Size: "unknown", Max: posInf})
 		return one(sa.freshM(fr, st, types.Typ[types.String], desc, nilMaybe))
 	case "encoding/hex.DecodeString":
 		ln := sa.boundedAtom(fr, st, types.Typ[types.Int], "len("+desc+")", Itv{0, posInf})
